@@ -621,6 +621,17 @@ class Weigher:
                 r = self.unify(self.uniform(r, t), self.uniform(wa, t), t,
                                'arguments of ' + name)
             if name in ('isclose', 'allclose'):
+                # the default atol (1e-8) is an absolute number: comparing a
+                # quantity that carries a weight against it depends on the unit
+                atol = dict(kws).get('atol', args[3] if len(args) > 3 else None)
+                if self.mode != 'affine' and not (atol is not None and is_num(atol)
+                                                   and atol[1] == 0):
+                    ru = self.uniform(r, t)
+                    if ru not in (ANY, NA, UNK, ZERO) and not (
+                            isinstance(ru, tuple)):
+                        self.conflict('%s compares a quantity of %s-weight %s with an '
+                                      'absolute tolerance (atol defaults to 1e-8)'
+                                      % (name, self.name, ru), t)
                 return UNK if r == UNK else ZERO
             return r
         if name == 'clip' and args:
